@@ -823,6 +823,7 @@ class _FunctionInformationCollector(ast.RopeNodeVisitor):
         self.postwritten = OrderedSet()
         self.host_function = True
         self.conditional = False
+        self.post_conditional = False
         self.globals_ = OrderedSet()
         self.nonlocals_ = OrderedSet()
         self.surrounded_by_loop = 0
@@ -847,7 +848,7 @@ class _FunctionInformationCollector(ast.RopeNodeVisitor):
                 self.postread.add(name)
         if self.start > lineno:
             self.prewritten.add(name)
-        if self.end < lineno:
+        if self.end < lineno and not self.post_conditional:
             self.postwritten.add(name)
 
     def _FunctionDef(self, node):
@@ -973,12 +974,16 @@ class _FunctionInformationCollector(ast.RopeNodeVisitor):
     @contextmanager
     def _handle_conditional_context(self, node):
         old_conditional = self.conditional
+        old_post_conditional = self.post_conditional
         if self.start <= node.lineno <= self.end:
             self.conditional = True
+        if self.end < node.lineno:
+            self.post_conditional = True
         try:
             yield
         finally:
             self.conditional = old_conditional
+            self.post_conditional = old_post_conditional
 
     @contextmanager
     def _handle_loop_context(self, node):
